@@ -619,6 +619,10 @@ func (wg *WeightedAuthorizationModelGraph) calculateNodeWeightAndFixDependencies
 			weights[key] = Infinite
 		}
 	}
+	if len(weights) == 0 {
+		// every edge of the node leads back into the cycle: no terminal type is reachable at all
+		return fmt.Errorf("%w: %s node does not have any terminal type to reach to", ErrInvalidModel, node.uniqueLabel)
+	}
 	node.weights = weights
 
 	wg.fixDependantEdgesWeight(nodeID, referenceNodeID, references, tupleCycleDependencies)
